@@ -61,12 +61,63 @@ theorem removeElementReq_ok {x : Ctx} (h : Inv x.st) {p : Peer} (hp : p ∈ x.st
     · next e he => exact removeElement_ok h hp (List.mem_of_find?_eq_some he)
     · exact Ok.refl h
 
+/-- the part of add_element_to_peer after the parameter checks -/
+def addMain (cfg : Config) (x : Ctx) (p : Peer) (req : Json) (params : Json) (path : Bytes) (fetchOnly : Bool)
+    (tns : Nat) : Ctx × Option Json :=
+  let value := params.getItem (k "value")
+  match fillAccess cfg value.isSome (params.getItem (k "access")) with
+  | .error reason => (x, errorFromRequest req INVALID_PARAMS "reason" (k reason))
+  | .ok (fg, sg, cg) =>
+    let e : Element := { path := path, owner := p.conn, value := value, fetchOnly := fetchOnly,
+                         timeoutNs := tns, fetchGroups := fg, setGroups := sg, callGroups := cg,
+                         fetchers := List.replicate cfg.initFetchTable none }
+    let (x, e) := findFetchersForElement cfg x e
+    if x.indexFull then
+      let x := notifyFetchers x e "remove"
+      ({ x with indexFull := false },
+       errorFromRequest req INTERNAL_ERROR "reason" (k "element table full"))
+    else
+      let st := { x.st with
+        index := x.st.index ++ [(path, p.conn)],
+        peers := updatePeer x.st.peers p.conn (fun q => { q with elements := q.elements ++ [e] }) }
+      ({ x with st := st }, successFromRequest req)
+
+theorem addMain_ok (cfg : Config) {x : Ctx} (h : Inv x.st) {p : Peer} (hp : p ∈ x.st.peers) (req params : Json)
+    (path : Bytes) (fetchOnly : Bool) (tns : Nat) (hnew : ¬ (lookupIndex x.st.index path).isSome = true) :
+    Ok x (addMain cfg x p req params path fetchOnly tns).1 := by
+  unfold addMain
+  dsimp only
+  split
+  · exact Ok.refl h
+  · next fg sg cg _ =>
+    obtain ⟨a1, a2, a3, a4, a5, a6, a7⟩ := findFetchersForElement_spec cfg h
+      { path := path, owner := p.conn, value := params.getItem (k "value"),
+        fetchOnly := fetchOnly,
+        timeoutNs := tns, fetchGroups := fg, setGroups := sg, callGroups := cg,
+        fetchers := List.replicate cfg.initFetchTable none }
+    split
+    · -- refused by the table
+      exact (a1.trans (notifyFetchers_ok a1.inv _ _)).trans
+        (Ok.of_out_eq (by simpa using (notifyFetchers_ok a1.inv _ _).inv) rfl rfl)
+    · refine a1.trans (Ok.of_out_eq ?_ (conns_updatePeer (fun _ => rfl)) rfl)
+      have hnone : lookupIndex x.st.index path = none := by
+        cases hl : lookupIndex x.st.index path with
+        | none => rfl
+        | some o => rw [hl] at hnew; simp at hnew
+      have := a1.inv.addElement (c := p.conn) (by rw [a2]; exact mem_conns.2 ⟨p, hp, rfl⟩)
+        (findFetchersForElement cfg x _).2 (by rw [a6]) (by rw [a2, a5]; exact hnone)
+        (by
+          intro fk hfk
+          rcases a7 fk hfk with h' | h'
+          · simp at h'
+          · rw [a2]; exact h')
+      rw [a5] at this
+      exact this
+
 theorem addElement_ok (cfg : Config) {x : Ctx} (h : Inv x.st) {p : Peer} (hp : p ∈ x.st.peers) (req : Json) :
     Ok x (addElement cfg x p req).1 := by
   unfold addElement
   repeat' split
-  all_goals try exact Ok.refl h
-  all_goals trace_state
-  all_goals sorry
+  all_goals first | exact Ok.refl h | (apply addMain_ok cfg h hp <;> assumption)
 
 end Cjet.Daemon.C05
